@@ -496,8 +496,9 @@ func applyPush(ctx Context, doc bsonkit.Doc, name, path string, v interface{}) e
 	}
 
 	// no-op if neither the array contents nor its length changed (e.g. empty
-	// $each with no other modifiers): skip the change record entirely
-	if len(values) == 0 && !hasPosition && !hasSort && !hasSlice {
+	// $each with no other modifiers): skip the change record entirely; a push
+	// that created the (empty) array is a change and is recorded below
+	if field != bsonkit.Missing && len(values) == 0 && !hasPosition && !hasSort && !hasSlice {
 		return nil
 	}
 
